@@ -59,7 +59,7 @@ def meta(tier):
         'rule': 'programs: every history over the 13-symbol alphabet (three statements on one line, 1-byte line, 8-byte line longer than a listing row, near and far '
                 'origins, zone switch, alignment gap, #mute/#unmute, zero-length fill, included file, label, a line emitting 00 and ff '
                 'bytes) up to the depth bound that the reference accepts, under address widths 8/10/12/16/24/32 (two of them with '
-                'predefined data blocks, one with two different blocks); per program 6 executions: two images (fill 00 / ff) giving the exact address->byte map, and '
+                'predefined data blocks, one with two different blocks); per program 6 executions: two images (fill 00 / ff) giving the exact address->byte map (and a length that ends at the highest described address), and '
                 'the four formats, each decoded independently, plus two images of the window that starts inside the first multi-byte statement (-s), which must hold the same bytes from there on, and the listing / hex dump / Intel HEX requested together with that window, which must still agree with the image from the window start on; one more run requests a format (rotating) with --no-binary, which must describe the same memory; the listing rows are also compared with the reference lines '
                 '(each statement once, its address, its bytes, nothing for muted lines); non-trivial = program with a gap, a muted '
                 'byte or a line longer than 6 bytes; plus (16-bit) every history up to depth 5 (thorough 6) over {#mute, #unmute, a byte, an include of a plain file, of a file that unmutes, of a file that mutes}: '
@@ -88,6 +88,8 @@ def check_formats(spec, outs):
     mem = truth_from_images(outs[0].image, outs[1].image)
     if mem is None:
         return 'the two images differ in length'
+    if spec.get('image_length') is not None and len(outs[0].image) != spec['image_length']:
+        return f'the image is {len(outs[0].image)} bytes long, the formats describe {spec["image_length"]} bytes of memory'
     want_rows = spec.get('rows')
     if spec.get('window_start') is not None and len(outs) >= 8:
         # the image of a window that starts inside a multi-byte statement describes the same bytes from there on
@@ -272,6 +274,13 @@ def examine(acc, isa, params, bits, h, files, sample):
                          'bytes': '' if l.muted else l.bytes.hex()})
     spec = {'type': 'formats', 'rows': rows, 'window_start': wstart}
     msg = check_formats(spec, outs)
+    if not msg and outs[0].status == 'OK' and outs[0].image is not None:
+        # the image covers exactly the addresses up to the highest one the formats describe (no end was asked for)
+        want_len = (max(ref.mem) + 1) if ref.mem else 0
+        if len(outs[0].image) != want_len:
+            msg = (f'the image is {len(outs[0].image)} bytes long, the formats describe memory up to address '
+                   f'{max(ref.mem) if ref.mem else None} ({want_len} bytes)')
+            spec = dict(spec, image_length=want_len)
     if msg:
         acc.violation(cases, spec, msg, outs)
     check_no_binary(acc, lambda f: Case(isa, text, pretty=f, binary=False), outs, 'program ' + repr(h))
